@@ -5,6 +5,7 @@ package main
 import (
 	"fmt"
 	"go/token"
+	"go/types"
 	"strings"
 
 	"golang.org/x/tools/go/ssa"
@@ -206,4 +207,64 @@ func checkInitStatesWidth(p *Program, r *Report, models []*Model) {
 		}
 	}
 	r.Floor("R04.8", "models with a custom init function", n, 1)
+}
+
+// checkStateRowLength (R04.10): the state rows of a model are as wide as the widest cell's (R04.8), so the length of
+// a slice-typed state argument says something about the *other* cells of the run. A kernel must not derive anything
+// that reaches its outputs or states from that length (a bounds assertion that panics is not a value).
+func checkStateRowLength(p *Program, r *Report, models []*Model) {
+	r.Rule("R04.10", "a cell does not read the width of the shared state rows: in kernels with slice-typed state arguments (whose rows InitialiseStates sizes for the widest cell), no value that reaches outputs, returned states or the control of the computation derives from len() of such an argument, in the kernel or in a helper it hands the slice to — a cell would otherwise behave differently depending on the parameters of the other cells of the run")
+	n := 0
+	for _, m := range models {
+		k := m.Kernel
+		if k == nil || len(m.States) == 0 {
+			continue
+		}
+		key := m.RelPkg + "." + k.Name()
+		var work []bufView
+		for pi, prm := range k.Params {
+			if _, isSlice := prm.Type().Underlying().(*types.Slice); isSlice {
+				work = append(work, bufView{k, pi, -1})
+			}
+		}
+		seen := map[bufView]bool{}
+		for len(work) > 0 {
+			bv := work[0]
+			work = work[1:]
+			if seen[bv] || len(seen) > 40 {
+				continue
+			}
+			seen[bv] = true
+			n++
+			bad := false
+			for _, c := range callsIn(bv.fn) {
+				if bi, ok := c.Common().Value.(*ssa.Builtin); ok && bi.Name() == "len" && len(c.Common().Args) == 1 && bv.is(c.Common().Args[0]) {
+					if val, ok := c.(ssa.Value); ok && influences(val) {
+						bad = true
+						r.Fail("R04.10", fmt.Sprintf("%s:len-of-state-row:%s", key, bv.fn.Name()), p.Pos(c.Pos()), fmt.Sprintf("%s derives a value that reaches outputs, states or the flow of the computation from the length of the slice-typed state argument `%s`: the state rows are sized for the widest cell of the run, so this cell's result changes with the parameters of the other cells", bv.fn.Name(), k.Params[seenRoot(bv, k)].Name()))
+					}
+					continue
+				}
+				for _, child := range handedTo(&bv, bv.is, c) {
+					work = append(work, child)
+				}
+			}
+			if !bad {
+				r.OK("R04.10", fmt.Sprintf("%s: nothing in %s derives from the length of a state row", key, bv.fn.Name()))
+			}
+		}
+	}
+	r.Floor("R04.10", "functions handed a slice-typed state argument", n, 2)
+}
+
+func seenRoot(bv bufView, k *ssa.Function) int {
+	if bv.fn == k {
+		return bv.prm
+	}
+	for pi, prm := range k.Params {
+		if _, isSlice := prm.Type().Underlying().(*types.Slice); isSlice {
+			return pi
+		}
+	}
+	return 0
 }
